@@ -529,14 +529,14 @@ def migration10(tdset):
       used_col_ids.add(display_col_id)
 
       # Add all actions to the list.
-      doc_actions.append(add_column(tables_map[c.parentId], 'gristHelper_Display', 'Any',
+      doc_actions.append(add_column(tables_map[c.parentId], display_col_id, 'Any',
         formula=formula, isFormula=True))
       doc_actions.append(actions.AddRecord('_grist_Tables_column', row_id, {
         'parentPos': 1.0,
-        'label': 'gristHelper_Display',
+        'label': display_col_id,
         'isFormula': True,
         'parentId': c.parentId,
-        'colId': 'gristHelper_Display',
+        'colId': display_col_id,
         'formula': formula,
         'widgetOptions': '',
         'type': 'Any'
